@@ -13,6 +13,7 @@ pub mod c08;
 pub mod c09;
 pub mod c10;
 pub mod c13;
+pub mod c14;
 pub mod c18;
 
 #[derive(Clone, Debug)]
@@ -64,6 +65,7 @@ pub async fn dispatch(prop: &str, ctx: &Ctx, rep: &mut Report) -> bool {
         "C09" => c09::run(ctx, rep).await,
         "C10" => c10::run(ctx, rep).await,
         "C13" => c13::run(ctx, rep).await,
+        "C14" => c14::run(ctx, rep).await,
         "C18" => c18::run(ctx, rep).await,
         _ => return false,
     }
